@@ -39,6 +39,8 @@ def plan(tier, seed):
         for i in range(3):
             units.append({'kind': 'sm2', 'weight': 2})
         units.append({'kind': 'pkcs8', 'weight': 3})
+        if rep % 3 == 0:
+            units.append({'kind': 'ctx-setup', 'weight': 5})
         units.append({'kind': 'import', 'weight': 3})
         units.append({'kind': 'cms', 'weight': 4, 'flips': 6 if tier == 'quick' else 24})
         units.append({'kind': 'sm9', 'weight': 4})
@@ -377,6 +379,102 @@ def u_recv_fail(ctx, u):
     ctx.sample({'kind': 'recv-fail', 'proto': u['proto'], 'faults': len(u['faults'])})
     srv_ctx.free()
     cli_ctx.free()
+
+
+def u_ctx_setup(ctx, u):
+    """Context set-up (loading chains and opening the password-protected keys) on the success path and on a failure at every
+    step: missing / damaged chain, missing key file, damaged key file with the right password, password wrong in one character,
+    key that does not belong to the certificate - for the TLS and the two-key TLCP form.  Sign and encryption keys have
+    different passwords; neither password nor any private scalar may appear on stdout / stderr."""
+    import shutil
+    rng, lib, L = ctx.rng, ctx.lib, ctx.L
+    creds = T.Creds(ctx, 'c19s-%d' % u['_i'], 1)
+    d = creds.dir
+    pw_sign = ('Sign-Pw-' + rng.randbytes(8).hex()).encode()
+    pw_enc = ('Enc-Pw-' + rng.randbytes(8).hex()).encode()
+    pw_cli = ('Cli-Pw-' + rng.randbytes(8).hex()).encode()
+    sign_key = T.write_key_pem(ctx, creds.sign_priv, d + '/s-sign.pem', pw_sign)
+    enc_key = T.write_key_pem(ctx, creds.enc_priv, d + '/s-enc.pem', pw_enc)
+    cli_key = T.write_key_pem(ctx, creds.cli_priv, d + '/s-cli.pem', pw_cli)
+
+    def damaged(path, how):
+        data = open(path, 'rb').read()
+        out = path + b'.' + how.encode()
+        if how == 'truncated':
+            data = data[:len(data) * 2 // 3]
+        elif how == 'flipped':
+            # one base64 character in the middle of the body
+            i = len(data) // 2
+            data = data[:i] + (b'A' if data[i:i + 1] != b'A' else b'B') + data[i + 1:]
+        elif how == 'empty':
+            data = b''
+        open(out, 'wb').write(data)
+        return out
+
+    def one_off(pw):
+        i = rng.randrange(len(pw))
+        return pw[:i] + bytes([pw[i] ^ 1]) + pw[i + 1:]
+    secrets = [('sign_password', pw_sign), ('enc_password', pw_enc), ('client_password', pw_cli),
+               ('server_sign_private', R.i2b(creds.sign_priv)), ('server_sign_private_le', U.limbs(creds.sign_priv)),
+               ('server_enc_private', R.i2b(creds.enc_priv)), ('server_enc_private_le', U.limbs(creds.enc_priv)),
+               ('client_private', R.i2b(creds.cli_priv))]
+    missing = (d + '/no-such-file.pem').encode()
+    cases = []
+    # TLCP server: (chain, sign key file, sign pass, enc key file, enc pass)
+    ok5 = (creds.tlcp_chain, sign_key, pw_sign, enc_key, pw_enc)
+    var5 = [('success', ok5)]
+    for nm, idx, val in (('chain-missing', 0, missing), ('chain-damaged', 0, damaged(creds.tlcp_chain, 'truncated')),
+                         ('sign-key-missing', 1, missing), ('sign-key-truncated', 1, damaged(sign_key, 'truncated')),
+                         ('sign-key-flipped', 1, damaged(sign_key, 'flipped')), ('sign-key-empty', 1, damaged(sign_key, 'empty')),
+                         ('sign-password-one-off', 2, one_off(pw_sign)), ('sign-password-is-enc-password', 2, pw_enc),
+                         ('sign-key-is-enc-key', 1, enc_key), ('enc-key-missing', 3, missing),
+                         ('enc-key-truncated', 3, damaged(enc_key, 'truncated')), ('enc-key-flipped', 3, damaged(enc_key, 'flipped')),
+                         ('enc-key-empty', 3, damaged(enc_key, 'empty')), ('enc-password-one-off', 4, one_off(pw_enc)),
+                         ('enc-password-is-sign-password', 4, pw_sign), ('enc-key-is-sign-key', 3, sign_key)):
+        a = list(ok5)
+        a[idx] = val
+        if nm == 'sign-key-is-enc-key':
+            a[2] = pw_enc
+        if nm == 'enc-key-is-sign-key':
+            a[4] = pw_sign
+        var5.append((nm, tuple(a)))
+    for nm, a in var5:
+        cases.append(('tlcp-server', nm, lambda c, a=a: lib.tls_ctx_set_tlcp_server_certificate_and_keys(c, a[0], a[1], a[2], a[3], a[4]), T.TLCP, 0))
+    # single-key form: TLS 1.2 / 1.3 server, and clients of all three protocols
+    for role, proto, chain, key, pw, is_client in (('tls12-server', T.TLS12, creds.tls_chain, sign_key, pw_sign, 0),
+                                                   ('tls13-server', T.TLS13, creds.tls_chain, sign_key, pw_sign, 0),
+                                                   ('tlcp-client', T.TLCP, creds.cli_chain, cli_key, pw_cli, 1),
+                                                   ('tls13-client', T.TLS13, creds.cli_chain, cli_key, pw_cli, 1)):
+        ok3 = (chain, key, pw)
+        var3 = [('success', ok3)]
+        for nm, idx, val in (('chain-missing', 0, missing), ('chain-damaged', 0, damaged(chain, 'truncated')), ('key-missing', 1, missing),
+                             ('key-truncated', 1, damaged(key, 'truncated')), ('key-flipped', 1, damaged(key, 'flipped')),
+                             ('key-empty', 1, damaged(key, 'empty')), ('password-one-off', 2, one_off(pw)), ('password-empty', 2, b''),
+                             ('key-of-another-certificate', 1, enc_key)):
+            a = list(ok3)
+            a[idx] = val
+            if nm == 'key-of-another-certificate':
+                a[2] = pw_enc
+            var3.append((nm, tuple(a)))
+        for nm, a in var3:
+            cases.append((role, nm, lambda c, a=a: lib.tls_ctx_set_certificate_and_key(c, a[0], a[1], a[2]), proto, is_client))
+    outcome = {}
+    for role, nm, fn, proto, is_client in cases:
+        cap = Capture(ctx)
+        with cap:
+            ctx.begin(['ctx-setup', role, nm])
+            c = ctx.buf(L['sizeof_TLS_CTX'], fill=0)
+            r0 = lib.tls_ctx_init(c, proto, is_client)
+            r = fn(c) if r0 == 1 else -9
+            ctx.shim.vf_fflush_all()
+        outcome[(role, nm)] = r
+        judge(ctx, cap, secrets, 'ctx-setup:' + role, nm)
+        ctx.stat('ctx_setup_' + ('ok' if r == 1 else 'refused'))
+        lib.tls_ctx_cleanup(c)
+        c.free()
+    for role in set(r for r, _ in outcome):
+        ctx.check(outcome[(role, 'success')] == 1, 'harness:ctx-setup-success-case-failed', role=role, ret=outcome[(role, 'success')])
+    ctx.sample({'kind': 'ctx-setup', 'cases': len(cases), 'refused': sum(1 for v in outcome.values() if v != 1)})
 
 
 def u_sm2(ctx, u):
@@ -820,5 +918,5 @@ def u_record(ctx, u):
 
 
 def run_unit(ctx, u):
-    {'handshake': u_handshake, 'handshake-fail': u_handshake_fail, 'recv-fail': u_recv_fail, 'sm2': u_sm2, 'pkcs8': u_pkcs8, 'import': u_import, 'cms': u_cms, 'sm9': u_sm9,
+    {'handshake': u_handshake, 'handshake-fail': u_handshake_fail, 'recv-fail': u_recv_fail, 'ctx-setup': u_ctx_setup, 'sm2': u_sm2, 'pkcs8': u_pkcs8, 'import': u_import, 'cms': u_cms, 'sm9': u_sm9,
      'record': u_record}[u['kind']](ctx, u)
